@@ -345,17 +345,17 @@ def read_getters(src: str, fields):
 
 
 def srcline_cpp(repo: str) -> str:
-    """verbatim text from `static constexpr int TAB_WIDTH` to the end of extract_source_line_expanded"""
-    raw = open(os.path.join(repo, BINDINGS), encoding='utf-8').read()
+    """C++ text (comments stripped, otherwise verbatim) from `static constexpr int TAB_WIDTH` to the end of
+    extract_source_line_expanded"""
+    raw = strip_cpp_comments(open(os.path.join(repo, BINDINGS), encoding='utf-8').read())
     a = raw.find('static constexpr int TAB_WIDTH')
     m = re.search(r'static\s+std::string\s+extract_source_line_expanded\s*\(\s*int\s+line_1based\s*,\s*int\s*&\s*column_in_out\s*\)\s*\{', raw)
     if a < 0 or not m or m.start() < a:
         raise SE('extract_source_line_expanded: signature / TAB_WIDTH not found')
-    # brace matching on the comment-free text would shift offsets; comments here contain no braces or quotes -> check
+    if raw[a:m.start()].count(';') != 1:
+        raise SE('extract_source_line_expanded: unexpected declarations between TAB_WIDTH and the function')
     j = match_brace(raw, m.end() - 1)
     seg = raw[a:j + 1]
-    if strip_cpp_comments(seg).count('{') != strip_cpp_comments(seg).count('}'):
-        raise SE('extract_source_line_expanded: braces inside comments')
     if 'g_state.input_text' not in seg or len(re.findall(r'g_state\.', seg)) != 1:
         raise SE('extract_source_line_expanded: reads g_state other than input_text')
     return seg
